@@ -3,12 +3,21 @@
     {"op":"json","report":R,"g":ms}   → {"ok": report'} | {"err": class}
     {"op":"xml","report":R,"g":ms}    → {"safe": bool, "repr": bool, "outcome": "save-error"|"parse-error"|"load-error"|"none-text"|"ok", …}
     {"op":"etnorm","elem":X}          → {"ok": X'} | {"err": "encode"|"parse"}
+    {"op":"json", …, "opts":{"jc":b,"pretty":b}, "head":[code points of the first characters of the real file]}
+        additionally → "frame_ok": the head starts with `frame opts "{"`, "unframed": `unframe head`
+    {"op":"seq","report":R0,"ops":[{"k":"set","report":R} | {"k":"save","path":n,"fmt":"json"|"xml","jc":b,"pretty":b,"g":ms}
+                                   | {"k":"load","path":n}]}
+        → {"outcomes":[{"o":"saved"} | {"o":"save-error","class"} | {"o":"no-file"} | {"o":"parse-error"}
+                        | {"o":"none-text","what"} | {"o":"load-error","class"} | {"o":"loaded","report":R'}]}   (`Store.run`)
+    {"op":"escape","s":[code points]} → {"out":[code points of `jsonEscape s`], "ascii":bool, "utf8":bool, "latin1":bool
+                                          (can the RAW string be written with that encoding)}
   Run: `lake env lean --run drivers/C09.lean`
 -/
 import LccModel.Proto
 import LccModel.ProtoReport
 import LccModel.Model.Serial
-open Lean LccModel LccModel.Proto LccModel.ProtoReport LccModel.Report LccModel.Serial
+import LccModel.Model.Store
+open Lean LccModel LccModel.Proto LccModel.ProtoReport LccModel.Report LccModel.Serial LccModel.JsonFile LccModel.Store
 
 partial def decElem (j : Json) : Except String XElem := do
   let tag ← (← field j "tag").getStr?
@@ -38,15 +47,56 @@ def loadErrClass : LoadErr → String
   | .unknownEntry => "ValueError"
   | .fuel => "model-fuel"
 
+def decOpts (j : Json) : Except String Opts := do
+  pure { jsCompat := (← getBool j "jc"), pretty := (← getBool j "pretty") }
+
+def decNats (j : Json) : Except String (List Nat) := do
+  (← j.getArr?).toList.mapM (fun x => x.getNat?)
+
+def decOp (j : Json) : Except String Op := do
+  match (← getStr j "k") with
+  | "set" =>
+    let r ← decReport (← field j "report")
+    pure (.mutate (fun _ => r))
+  | "save" =>
+    let p ← getNat j "path"
+    let g ← getNat j "g"
+    let fmt ← match (← getStr j "fmt") with
+      | "json" => do pure (Fmt.json (← decOpts j))
+      | "xml" => pure Fmt.xml
+      | f => throw s!"unknown format {f}"
+    pure (.save p fmt g)
+  | "load" => pure (.load (← getNat j "path"))
+  | k => throw s!"unknown op kind {k}"
+
+def encOutcome : Outcome → Json
+  | .saved => Json.mkObj [("o", "saved")]
+  | .saveFailed (.noneTime w) => Json.mkObj [("o", "save-error"), ("class", "TypeError"), ("what", Json.str w)]
+  | .saveFailed .encode => Json.mkObj [("o", "save-error"), ("class", "UnicodeEncodeError")]
+  | .noFile => Json.mkObj [("o", "no-file")]
+  | .loadFailedText => Json.mkObj [("o", "parse-error")]
+  | .loadFailed (.noneText w) => Json.mkObj [("o", "none-text"), ("what", Json.str w)]
+  | .loadFailed e => Json.mkObj [("o", "load-error"), ("class", Json.str (loadErrClass e))]
+  | .loaded r => Json.mkObj [("o", "loaded"), ("report", encReport r)]
+
 def handle (j : Json) : Except String Json := do
   let op ← getStr j "op"
   match op with
   | "json" =>
     let r ← decReport (← field j "report")
     let g ← getNat j "g"
+    let frameInfo : List (String × Json) ← match fieldOpt j "opts", fieldOpt j "head" with
+      | .null, _ => pure []
+      | _, .null => pure []
+      | oj, hj => do
+        let o ← decOpts oj
+        let head := (← decNats hj).map Char.ofNat
+        let want := frame o ['{']
+        pure [("frame_ok", Json.bool (head.take want.length == want)),
+              ("unframed", Json.arr ((unframe head).map (fun c => Json.num c.toNat)).toArray)]
     match fromJson (toJson g r) with
-    | .ok r' => pure (Json.mkObj [("ok", encReport r'), ("repr", Json.bool (representable r))])
-    | .error e => pure (Json.mkObj [("err", Json.str (loadErrClass e))])
+    | .ok r' => pure (Json.mkObj ([("ok", encReport r'), ("repr", Json.bool (representable r))] ++ frameInfo))
+    | .error e => pure (Json.mkObj ([("err", Json.str (loadErrClass e))] ++ frameInfo))
   | "xml" =>
     let r ← decReport (← field j "report")
     let g ← getNat j "g"
@@ -64,6 +114,15 @@ def handle (j : Json) : Except String Json := do
     | .ok y => pure (Json.mkObj [("ok", encElem y)])
     | .error .encode => pure (Json.mkObj [("err", "encode")])
     | .error .parse => pure (Json.mkObj [("err", "parse")])
+  | "seq" =>
+    let r0 ← decReport (← field j "report")
+    let ops ← decList decOp (← field j "ops")
+    pure (Json.mkObj [("outcomes", Json.arr ((Store.run (St.init r0) ops).map encOutcome).toArray)])
+  | "escape" =>
+    let s ← decNats (← field j "s")
+    pure (Json.mkObj [("out", Json.arr ((jsonEscape s).map (fun (n : Nat) => Json.num n)).toArray),
+                      ("ascii", Json.bool (writeOk .ascii s)), ("latin1", Json.bool (writeOk .latin1 s)),
+                      ("utf8", Json.bool (writeOk .utf8 s))])
   | _ => throw s!"unknown op {op}"
 
 def main : IO Unit := loop (wrap handle)
